@@ -5,6 +5,24 @@ from mirlib import AnchorMissing, path_matches
 from helpers import vexpr, loop_of, must_pass, field_accesses, try_edges
 
 
+def r_symbols_reach_preprocessor(r, prog):
+    """Every symbol given with -D is defined for every file: what compile_files hands to parse_files is the set of all
+    options.defined_symbols - cloned or collected, never filtered, mapped or cut (a filter that knows the preprocessor's identifier syntax
+    slightly wrong - no `_` - silently drops symbols, and `#if FOO_BAR` selects the wrong lines)."""
+    callers = [c for c in prog.callers_of('slicec::parsers::parse_files') if not c.fn.blocks[c.bb].get('cleanup')]
+    if not callers:
+        raise AnchorMissing('callers of parse_files')
+    for c in callers:
+        f = c.fn
+        v = vexpr(f, c.args[1], depth=24)
+        ok = re.match(r'^(from_iter|collect)\((clone|cloned\(iter|into_iter\(clone|iter)\(*arg\d\.defined_symbols\)*$', v) is not None
+        if ok:
+            r.ok('%s defines exactly the -D symbols: %s' % (f.path, v))
+        else:
+            r.finding('defined-symbols-altered:%s' % f.path, c.span, '%s hands %s to parse_files: not the set of all symbols given with -D (a symbol that is filtered out or rewritten is undefined in every file)' % (f.path, v[:160]))
+    r.floor(1)
+
+
 def r_symbols_per_file(r, prog):
     pfs = prog.fn('slicec::parsers::parse_files')
     pf = prog.fn('slicec::parsers::parse_file')
